@@ -4,8 +4,16 @@
       [trodeo_of c] satisfies [TInv] with the content the key -> string map holds
       ([quiescent_is_TInv]), so every sequential theorem about views, serialisation, equality
       and iteration applies to interners "populated concurrently".
-   B. One thread running alone from a quiescent state performs the sequential model's call
-      ([run_solo], see the section for what is proved).
+   B. One thread running a call alone from a quiescent state ([run_solo]: dispatch, then step
+      with no spurious failure until the thread is idle again) performs EXACTLY the sequential
+      model's call: [solo_call] gives [trodeo_of (run_solo c tid fuel) = fst (seq_call (trodeo_of c) cl)]
+      (both maps, the counter and the arena with its block identities are equal, not merely
+      related), the recorded answer is [snd (seq_call ...)], no lock is left, the state is
+      quiescent again; for all six calls ([solo_intern] is the try_get_or_intern instance).
+      No corner differs: the 100-try budget of try_inc_length is never consumed (a solo CAS
+      succeeds at the first try), and the small-step growth path takes the same branches as
+      [grow lf_place true] ([phase_grow]), the first-fit walk the same bucket as [lf_first_fit]
+      ([phase_walk]).  [solo_call_from_init] combines A and B.
    C. The key-ordered listing of a ThreadedRodeo is the enumerated content
       ([t_pairs_enumerate]); serialisation and the serde round trip on top of it.
    D. [Extend] / [FromIter] at world level are loops of [InternP] that stop at the first panic. *)
@@ -487,12 +495,14 @@ Section ExtendLoop.
                    end).
       { cbn [Rodeo.step]. rewrite E. cbn [Rodeo.r_extend].
         destruct (intern r s) as (r' & [k|e]); cbn [fst snd]; [|reflexivity].
-        rewrite (get_set_same w i (ORodeo r') Hlt). unfold set_obj. rewrite set_nth_twice.
-        reflexivity. }
+        rewrite (get_set_same w i (ORodeo r') Hlt). destruct (r_extend r' l) as (r'' & ok).
+        unfold set_obj. rewrite set_nth_twice. reflexivity. }
       rewrite HE, HP. cbn [fst snd].
       destruct (snd (intern r s)) as [k|e]; cbn [out_of_resP is_panic].
       + cbn [map]. rewrite run_cons, HP. cbn [fst snd out_of_resP existsb is_panic orb].
-        apply (IH _ i (fst (intern r s))). apply get_set_same; exact Hlt.
+        destruct (IH (set_obj w i (ORodeo (fst (intern r s)))) i (fst (intern r s))
+                    (get_set_same w i _ Hlt)) as (I1 & I2 & I3).
+        split; [exact I1|]. split; [exact I2|]. intros Hb. f_equal. exact (I3 Hb).
       + cbn [map]. rewrite run_cons, HP. cbn [fst snd Rodeo.run out_of_resP existsb is_panic orb].
         split; [reflexivity|]. split; [reflexivity|discriminate].
   Qed.
@@ -520,12 +530,14 @@ Section ExtendLoop.
                    end).
       { cbn [Rodeo.step]. rewrite E. cbn [Rodeo.t_extend].
         destruct (t_intern t s) as (t' & [k|e]); cbn [fst snd]; [|reflexivity].
-        rewrite (get_set_same w i (OThreaded t') Hlt). unfold set_obj. rewrite set_nth_twice.
-        reflexivity. }
+        rewrite (get_set_same w i (OThreaded t') Hlt). destruct (t_extend t' l) as (t'' & ok).
+        unfold set_obj. rewrite set_nth_twice. reflexivity. }
       rewrite HE, HP. cbn [fst snd].
       destruct (snd (t_intern t s)) as [k|e]; cbn [out_of_resP is_panic].
       + cbn [map]. rewrite run_cons, HP. cbn [fst snd out_of_resP existsb is_panic orb].
-        apply (IH _ i (fst (t_intern t s))). apply get_set_same; exact Hlt.
+        destruct (IH (set_obj w i (OThreaded (fst (t_intern t s)))) i (fst (t_intern t s))
+                    (get_set_same w i _ Hlt)) as (I1 & I2 & I3).
+        split; [exact I1|]. split; [exact I2|]. intros Hb. f_equal. exact (I3 Hb).
       + cbn [map]. rewrite run_cons, HP. cbn [fst snd Rodeo.run out_of_resP existsb is_panic orb].
         split; [reflexivity|]. split; [reflexivity|discriminate].
   Qed.
@@ -570,7 +582,7 @@ Section ExtendLoop.
 
   (* FromIterator: Extend into a fresh interner with the default capacity, published in a new
      slot when no get_or_intern panicked *)
-  Theorem step_from_iter_is_extend w threaded l :
+  Theorem step_from_iter_is_extend w (threaded : bool) l :
     let fresh := if threaded then OThreaded (trodeo_new default_bytes usize_max)
                  else ORodeo (rodeo_new default_bytes usize_max) in
     let ext := step (w ++ [fresh]) (Extend (length w) l) in
@@ -593,3 +605,790 @@ Section ExtendLoop.
       + split; [discriminate|reflexivity].
   Qed.
 End ExtendLoop.
+
+(* ====================================================================================== *)
+(* B. one thread running alone performs the sequential call                                *)
+(* ====================================================================================== *)
+
+(* Method: every state of a solo run has the form [St c0 tid th a m strs key L] (the start
+   state with thread [tid], the arena, the maps, the counter and the lock table replaced);
+   [step] is computed on such forms ([sstep]) and the phases of the call are chained with
+   [solo_run] (a sequence of steps of thread [tid] with choice = false). *)
+
+Lemma find_map {A B} (p : B -> bool) (f : A -> B) l :
+  find p (map f l) = match find (fun x => p (f x)) l with Some x => Some (f x) | None => None end.
+Proof. induction l as [|x l IH]; simpl; auto. destruct (p (f x)); auto. Qed.
+
+Lemma set_nth_same_val {A} (l : list A) n x : nth_error l n = Some x -> set_nth n x l = l.
+Proof.
+  revert n; induction l as [|y l IH]; intros [|n] H; simpl in *; try discriminate; auto.
+  - now injection H as ->.
+  - now rewrite IH.
+Qed.
+
+Lemma opt_N_eqb_refl o : opt_N_eqb o o = true.
+Proof. destruct o; simpl; auto. apply N.eqb_refl. Qed.
+
+Lemma lf_first_fit_cons b t s :
+  lf_first_fit (b :: t) s =
+  if bused b + slen s <=? bcap b then let (b', r) := push_slice b s in Some (b' :: t, r)
+  else match lf_first_fit t s with Some (t', r) => Some (b :: t', r) | None => None end.
+Proof. reflexivity. Qed.
+
+Lemma find_block_at id pre b suf :
+  ~ In id (map bid pre) -> bid b = id -> find_block id (pre ++ b :: suf) = Some b.
+Proof.
+  induction pre as [|x pre IH]; cbn [map app find_block]; intros Hn Hb.
+  - now rewrite Hb, N.eqb_refl.
+  - destruct (bid x =? id) eqn:E; [apply N.eqb_eq in E; exfalso; apply Hn; now left|].
+    apply IH; auto. intros Hin. apply Hn. now right.
+Qed.
+
+Lemma set_block_at b' pre b suf :
+  ~ In (bid b') (map bid pre) -> bid b = bid b' -> set_block b' (pre ++ b :: suf) = pre ++ b' :: suf.
+Proof.
+  induction pre as [|x pre IH]; cbn [map app set_block]; intros Hn Hb.
+  - now rewrite Hb, N.eqb_refl.
+  - destruct (bid x =? bid b') eqn:E; [apply N.eqb_eq in E; exfalso; apply Hn; now left|].
+    rewrite IH; auto. intros Hin. apply Hn. now right.
+Qed.
+
+Section Solo.
+  Variable shard_of : str -> N.
+  Variable keycap : N.
+
+  Notation cstep := (Conc.step shard_of keycap).
+
+  (* run thread [tid] alone (no spurious failures) until it is back between calls *)
+  Fixpoint solo_loop (c : cstate) (tid fuel : nat) : cstate :=
+    match fuel with
+    | O => c
+    | S f =>
+        match nth_error (c_threads c) tid with
+        | Some t =>
+            match t_pc t with
+            | PIdle => c
+            | _ => match cstep c tid false with
+                   | Some c' => solo_loop c' tid f
+                   | None => c
+                   end
+            end
+        | None => c
+        end
+    end.
+
+  (* dispatch the thread's next call, then run it to completion *)
+  Definition run_solo (c : cstate) (tid fuel : nat) : cstate :=
+    match cstep c tid false with
+    | Some c' => solo_loop c' tid fuel
+    | None => c
+    end.
+
+  (* the states of a solo run: the state [c0] the run started from, with thread [tid]
+     replaced by [th], the arena by [a], the maps, counter and lock table as given *)
+  Definition St (c0 : cstate) (tid : nat) (th : thread) (a : arena) (m strs : list entry)
+             (key : N) (L : list (N * nat)) : cstate :=
+    mkC (blocks a) (bucket_cap a) (usage a) (limit a) (next_bid a) m strs key L
+        (set_nth tid th (c_threads c0)).
+
+  Lemma St_init c tid t :
+    nth_error (c_threads c) tid = Some t ->
+    c = St c tid t (as_arena c) (c_map c) (c_strs c) (c_key c) (c_locks c).
+  Proof.
+    intros H. unfold St, as_arena. cbn [blocks bucket_cap usage limit next_bid].
+    rewrite (set_nth_same_val _ _ _ H). now destruct c.
+  Qed.
+
+  Lemma nth_St c0 tid th a m strs key L t0 :
+    nth_error (c_threads c0) tid = Some t0 ->
+    nth_error (c_threads (St c0 tid th a m strs key L)) tid = Some th.
+  Proof. intros H. cbn [St c_threads]. eapply ConcInternProofs.nth_error_set_nth_eq; eauto. Qed.
+
+  Lemma goto_St c0 tid th a m strs key L th' p :
+    goto (St c0 tid th a m strs key L) tid th' p =
+    St c0 tid (mkThread p (t_call th') (t_prog th') (t_outs th')) a m strs key L.
+  Proof. unfold goto, with_threads, set_thread, St. cbn. now rewrite set_nth_twice. Qed.
+
+  Lemma finish_St c0 tid th a m strs key L th' o :
+    finish (St c0 tid th a m strs key L) tid th' o =
+    St c0 tid (mkThread PIdle (t_call th') (t_prog th') ((t_call th', o) :: t_outs th')) a m strs key
+       (filter (fun e => negb (Nat.eqb (snd e) tid)) L).
+  Proof. unfold finish, with_locks, with_threads, set_thread, unlock, St. cbn. now rewrite set_nth_twice. Qed.
+
+  Lemma as_arena_St c0 tid th a m strs key L : as_arena (St c0 tid th a m strs key L) = a.
+  Proof. unfold as_arena, St. cbn. now destruct a. Qed.
+
+
+  Lemma trodeo_of_St c0 tid th a m strs key L :
+    trodeo_of (St c0 tid th a m strs key L) =
+    mkT (map (fun e => (e_ref e, e_key e)) m) (map (fun e => (e_key e, e_ref e)) strs) key a.
+  Proof. unfold trodeo_of. rewrite as_arena_St. reflexivity. Qed.
+
+  (* field updates and projections of a solo state *)
+  Lemma with_blocks_St c0 tid th a m strs key L bs :
+    with_blocks (St c0 tid th a m strs key L) bs =
+    St c0 tid th (mkArena bs (bucket_cap a) (usage a) (limit a) (next_bid a)) m strs key L.
+  Proof. reflexivity. Qed.
+  Lemma with_usage_St c0 tid th a m strs key L u :
+    with_usage (St c0 tid th a m strs key L) u =
+    St c0 tid th (mkArena (blocks a) (bucket_cap a) u (limit a) (next_bid a)) m strs key L.
+  Proof. reflexivity. Qed.
+  Lemma with_bcap_St c0 tid th a m strs key L x :
+    with_bcap (St c0 tid th a m strs key L) x =
+    St c0 tid th (mkArena (blocks a) x (usage a) (limit a) (next_bid a)) m strs key L.
+  Proof. reflexivity. Qed.
+  Lemma with_next_bid_St c0 tid th a m strs key L x :
+    with_next_bid (St c0 tid th a m strs key L) x =
+    St c0 tid th (mkArena (blocks a) (bucket_cap a) (usage a) (limit a) x) m strs key L.
+  Proof. reflexivity. Qed.
+  Lemma with_limit_St c0 tid th a m strs key L x :
+    with_limit (St c0 tid th a m strs key L) x = St c0 tid th (set_limit a x) m strs key L.
+  Proof. reflexivity. Qed.
+  Lemma with_key_St c0 tid th a m strs key L x :
+    with_key (St c0 tid th a m strs key L) x = St c0 tid th a m strs x L.
+  Proof. reflexivity. Qed.
+  Lemma with_strs_St c0 tid th a m strs key L x :
+    with_strs (St c0 tid th a m strs key L) x = St c0 tid th a m x key L.
+  Proof. reflexivity. Qed.
+  Lemma with_map_St c0 tid th a m strs key L x :
+    with_map (St c0 tid th a m strs key L) x = St c0 tid th a x strs key L.
+  Proof. reflexivity. Qed.
+  Lemma with_locks_St c0 tid th a m strs key L x :
+    with_locks (St c0 tid th a m strs key L) x = St c0 tid th a m strs key x.
+  Proof. reflexivity. Qed.
+  Lemma c_blocks_St c0 tid th a m strs key L : c_blocks (St c0 tid th a m strs key L) = blocks a.
+  Proof. reflexivity. Qed.
+  Lemma c_bcap_St c0 tid th a m strs key L : c_bcap (St c0 tid th a m strs key L) = bucket_cap a.
+  Proof. reflexivity. Qed.
+  Lemma c_usage_St c0 tid th a m strs key L : c_usage (St c0 tid th a m strs key L) = usage a.
+  Proof. reflexivity. Qed.
+  Lemma c_limit_St c0 tid th a m strs key L : c_limit (St c0 tid th a m strs key L) = limit a.
+  Proof. reflexivity. Qed.
+  Lemma c_next_bid_St c0 tid th a m strs key L : c_next_bid (St c0 tid th a m strs key L) = next_bid a.
+  Proof. reflexivity. Qed.
+  Lemma c_map_St c0 tid th a m strs key L : c_map (St c0 tid th a m strs key L) = m.
+  Proof. reflexivity. Qed.
+  Lemma c_strs_St c0 tid th a m strs key L : c_strs (St c0 tid th a m strs key L) = strs.
+  Proof. reflexivity. Qed.
+  Lemma c_key_St c0 tid th a m strs key L : c_key (St c0 tid th a m strs key L) = key.
+  Proof. reflexivity. Qed.
+  Lemma c_locks_St c0 tid th a m strs key L : c_locks (St c0 tid th a m strs key L) = L.
+  Proof. reflexivity. Qed.
+  Lemma head_id_St c0 tid th a m strs key L :
+    head_id (St c0 tid th a m strs key L) = match blocks a with b :: _ => Some (bid b) | [] => None end.
+  Proof. reflexivity. Qed.
+
+  (* string -> key lookup on the parts *)
+  Definition mget (a : arena) (m : list entry) (s : str) : option N :=
+    match find (fun e => match read a (e_ref e) with
+                         | Some s' => str_eqb s s' | None => false end) m with
+    | Some e => Some (e_key e)
+    | None => None
+    end.
+
+  Lemma map_get_St c0 tid th a m strs key L s :
+    map_get (St c0 tid th a m strs key L) s = mget a m s.
+  Proof. unfold map_get. rewrite as_arena_St. reflexivity. Qed.
+
+  (* the lookup of the concurrent model is the sequential [t_get], on every state *)
+  Lemma map_get_t_get c s : map_get c s = t_get (trodeo_of c) s.
+  Proof.
+    unfold map_get, t_get, trodeo_of. cbn [tmap tar]. rewrite find_map. cbn [fst snd].
+    destruct (find _ (c_map c)); reflexivity.
+  Qed.
+
+  (* a solo thread is never blocked: the lock table is empty or holds its own lock *)
+  Lemma blocked_St_nil c0 tid th a m strs key p :
+    blocked shard_of (St c0 tid th a m strs key []) tid p = false.
+  Proof. destruct p as [|[]| | | | | | | | | | |]; reflexivity. Qed.
+
+  Lemma blocked_St_own c0 tid th a m strs key sh p :
+    blocked shard_of (St c0 tid th a m strs key [(sh, tid)]) tid p = false.
+  Proof.
+    destruct p as [|[]| | | | | | | | | | |]; try reflexivity;
+      unfold blocked, lock_holder; cbn [c_locks St find fst snd];
+      (destruct (sh =? _); [cbn [snd]; now rewrite Nat.eqb_refl|reflexivity]).
+  Qed.
+
+  Hint Rewrite with_limit_St with_blocks_St with_usage_St with_bcap_St with_next_bid_St with_key_St with_strs_St
+       with_map_St with_locks_St c_blocks_St c_bcap_St c_usage_St c_limit_St c_next_bid_St c_map_St
+       c_strs_St c_key_St c_locks_St head_id_St map_get_St goto_St finish_St : solo.
+
+  Inductive solo_run (tid : nat) : cstate -> cstate -> Prop :=
+  | sr_done c : solo_run tid c c
+  | sr_step c c1 c' t :
+      nth_error (c_threads c) tid = Some t -> t_pc t <> PIdle -> cstep c tid false = Some c1 ->
+      solo_run tid c1 c' -> solo_run tid c c'.
+
+  Lemma solo_run_trans tid c1 c2 c3 : solo_run tid c1 c2 -> solo_run tid c2 c3 -> solo_run tid c1 c3.
+  Proof. induction 1; auto. intros H3. eapply sr_step; eauto. Qed.
+
+  Lemma solo_run_loop tid c c' :
+    solo_run tid c c' ->
+    (exists t, nth_error (c_threads c') tid = Some t /\ t_pc t = PIdle) ->
+    exists n, forall fuel, (n <= fuel)%nat -> solo_loop c tid fuel = c'.
+  Proof.
+    induction 1 as [c|c c1 c' t Hn Hpc Hs Hr IH]; intros Hidle.
+    - exists 0%nat. intros [|f] _; cbn [solo_loop]; auto.
+      destruct Hidle as (t & -> & ->). reflexivity.
+    - destruct (IH Hidle) as (n & Hloop). exists (S n). intros [|f] Hf; [lia|].
+      cbn [solo_loop]. rewrite Hn, Hs.
+      destruct (t_pc t); try contradiction; apply Hloop; lia.
+  Qed.
+
+  Ltac norm := cbn [t_call t_prog t_outs t_pc blocks bucket_cap usage limit next_bid];
+               autorewrite with solo;
+               cbn [t_call t_prog t_outs t_pc blocks bucket_cap usage limit next_bid].
+
+  Ltac sstep H :=
+    eapply sr_step;
+    [ eapply nth_St; exact H
+    | cbn [t_pc]; discriminate
+    | unfold Conc.step, step_gen; rewrite (nth_St _ _ _ _ _ _ _ _ _ H);
+      rewrite ?blocked_St_nil, ?blocked_St_own; cbn [t_pc store_step]; reflexivity
+    | norm ].
+
+  Section Phases.
+    Variable c0 : cstate.
+    Variable tid : nat.
+    Variable t0 : thread.
+    Hypothesis H0 : nth_error (c_threads c0) tid = Some t0.
+
+    Definition unl (L : list (N * nat)) : list (N * nat) :=
+      filter (fun e => negb (Nat.eqb (snd e) tid)) L.
+
+    (* key.fetch_add, strings.insert, map insert, unlock *)
+    Lemma phase_key s r cl pr outs a m strs key sh :
+      solo_run tid (St c0 tid (mkThread (PKeyAdd s r) cl pr outs) a m strs key [(sh, tid)])
+        (if key <? keycap
+         then St c0 tid (mkThread PIdle cl pr ((cl, ROk key) :: outs)) a
+                 (m ++ [mkEntry r s key]) (strs_put (mkEntry r s key) strs) (key + 1) []
+         else St c0 tid (mkThread PIdle cl pr ((cl, RErr KeySpaceExhaustion) :: outs)) a
+                 m strs (key + 1) []).
+    Proof.
+      sstep H0. unfold Conc.try_key.
+      assert (Hu : filter (fun e : N * nat => negb (Nat.eqb (snd e) tid)) [(sh, tid)] = []).
+      { cbn [filter snd]. now rewrite Nat.eqb_refl. }
+      destruct (key <? keycap).
+      - norm. sstep H0. sstep H0. rewrite Hu. apply sr_done.
+      - norm. rewrite Hu. apply sr_done.
+    Qed.
+
+
+    Lemma sr_done_eq c c' : c = c' -> solo_run tid c c'.
+    Proof. intros ->. apply sr_done. Qed.
+
+    Lemma unl_own sh : filter (fun e : N * nat => negb (Nat.eqb (snd e) tid)) [(sh, tid)] = [].
+    Proof. cbn [filter snd]. now rewrite Nat.eqb_refl. Qed.
+
+    (* allocate the block, copy the string into it, push it in front *)
+    Lemma phase_new s cap cl pr outs a m strs key sh :
+      solo_run tid (St c0 tid (mkThread (PStore s (SNewBlock cap)) cl pr outs) a m strs key [(sh, tid)])
+        (St c0 tid (mkThread (PKeyAdd s (RArena (next_bid a) 0 (slen s))) cl pr outs)
+            (mkArena (fst (push_slice (fresh_block (next_bid a) cap) s) :: blocks a)
+                     (bucket_cap a) (usage a) (limit a) (next_bid a + 1)) m strs key [(sh, tid)]).
+    Proof.
+      sstep H0. destruct (push_slice (fresh_block (next_bid a) cap) s) as (blk & r0) eqn:Ep. norm.
+      sstep H0. sstep H0. rewrite opt_N_eqb_refl. cbn [andb negb]. norm.
+      assert (Hb : bid blk = next_bid a).
+      { unfold push_slice in Ep. injection Ep as <- _. reflexivity. }
+      rewrite Hb. apply sr_done.
+    Qed.
+
+    (* what a store that ended leaves behind: the reference in hand, or the call answered *)
+    Definition after_store (s : str) (cl : call) (pr : list call) (outs : list (call * cout))
+               (m strs : list entry) (key : N) (sh : N) (x : arena * res sref) : cstate :=
+      match x with
+      | (a', Ok r) => St c0 tid (mkThread (PKeyAdd s r) cl pr outs) a' m strs key [(sh, tid)]
+      | (a', Err e) => St c0 tid (mkThread PIdle cl pr ((cl, RErr e) :: outs)) a' m strs key []
+      end.
+
+    (* the growth path of store_str *)
+    Lemma phase_grow s cl pr outs a m strs key sh :
+      solo_run tid (St c0 tid (mkThread (PStore s SBcap) cl pr outs) a m strs key [(sh, tid)])
+        (after_store s cl pr outs m strs key sh (grow lf_place true a s)).
+    Proof.
+      unfold grow. sstep H0.
+      destruct (2 * bucket_cap a <? slen s) eqn:E1.
+      - norm. sstep H0. sstep H0.
+        destruct (limit a <? usage a + slen s) eqn:E2.
+        + norm. rewrite unl_own. apply sr_done.
+        + rewrite N.eqb_refl. cbn [andb negb]. norm.
+          eapply solo_run_trans; [apply phase_new|]. norm.
+          unfold push_slice. cbn [after_store fst fresh_block bid bused lf_place]. apply sr_done.
+      - norm. sstep H0. sstep H0.
+        destruct (limit a <? usage a + 2 * bucket_cap a) eqn:E2.
+        + cbn [andb]. destruct (limit a - usage a <? slen s) eqn:E3.
+          * norm. rewrite unl_own. apply sr_done.
+          * norm. sstep H0. sstep H0.
+            destruct (limit a <? usage a + (limit a - usage a)) eqn:E4.
+            -- norm. rewrite unl_own. apply sr_done.
+            -- rewrite N.eqb_refl. cbn [andb negb].
+               destruct (limit a - usage a =? 0) eqn:E5.
+               ++ norm. rewrite unl_own. apply sr_done.
+               ++ norm. eapply solo_run_trans; [apply phase_new|]. norm.
+                  unfold push_slice. cbn [after_store fst fresh_block bid bused lf_place]. apply sr_done.
+        + norm. sstep H0. sstep H0. rewrite E2, N.eqb_refl. cbn [andb negb]. norm.
+          sstep H0. eapply solo_run_trans; [apply phase_new|]. norm.
+          unfold push_slice. cbn [after_store fst fresh_block bid bused lf_place]. apply sr_done.
+    Qed.
+
+    (* the first-fit walk over the bucket list, from the bucket [blk0] on *)
+    Lemma phase_walk s cl pr outs bc us lim nb m strs key sh : forall suf pre blk0,
+      NoDup (map bid (pre ++ blk0 :: suf)) ->
+      solo_run tid
+        (St c0 tid (mkThread (PStore s (SLen (bid blk0) (map bid suf))) cl pr outs)
+            (mkArena (pre ++ blk0 :: suf) bc us lim nb) m strs key [(sh, tid)])
+        (match lf_first_fit (blk0 :: suf) s with
+         | Some (suf2, r) =>
+             St c0 tid (mkThread (PKeyAdd s r) cl pr outs)
+                (mkArena (pre ++ suf2) bc us lim nb) m strs key [(sh, tid)]
+         | None =>
+             St c0 tid (mkThread (PStore s SBcap) cl pr outs)
+                (mkArena (pre ++ blk0 :: suf) bc us lim nb) m strs key [(sh, tid)]
+         end).
+    Proof.
+      induction suf as [|b1 suf1 IH]; intros pre blk0 Hnd.
+      - assert (Hpre : ~ In (bid blk0) (map bid pre)).
+        { rewrite map_app in Hnd. cbn [map] in Hnd. apply NoDup_remove_2 in Hnd.
+          intros Hin. apply Hnd. apply in_or_app. now left. }
+        sstep H0. rewrite (find_block_at _ pre blk0 [] Hpre eq_refl). norm.
+        sstep H0. rewrite (find_block_at _ pre blk0 [] Hpre eq_refl).
+        change (Nat.ltb 0 100) with true. cbn [andb lf_first_fit].
+        destruct (bused blk0 + slen s <=? bcap blk0) eqn:Efit.
+        + rewrite N.eqb_refl. cbn [andb negb]. norm.
+          match goal with |- context [set_block ?B _] => rewrite (set_block_at B pre blk0 [] Hpre eq_refl) end.
+          sstep H0. match goal with |- context [find_block _ (_ ++ ?B0 :: _)] => rewrite (find_block_at (bid blk0) pre B0 [] Hpre eq_refl) end. norm.
+          match goal with |- context [set_block ?B (_ ++ ?B0 :: _)] => rewrite (set_block_at B pre B0 [] Hpre eq_refl) end.
+          unfold push_slice. apply sr_done.
+        + cbn [map]. norm. apply sr_done.
+      - assert (Hpre : ~ In (bid blk0) (map bid pre)).
+        { rewrite map_app in Hnd. cbn [map] in Hnd. apply NoDup_remove_2 in Hnd.
+          intros Hin. apply Hnd. apply in_or_app. now left. }
+        sstep H0. rewrite (find_block_at _ pre blk0 _ Hpre eq_refl). norm.
+        sstep H0. rewrite (find_block_at _ pre blk0 _ Hpre eq_refl).
+        change (Nat.ltb 0 100) with true. cbn [andb].
+        rewrite (lf_first_fit_cons blk0 (b1 :: suf1) s).
+        destruct (bused blk0 + slen s <=? bcap blk0) eqn:Efit.
+        + rewrite N.eqb_refl. cbn [andb negb]. norm.
+          match goal with |- context [set_block ?B _] => rewrite (set_block_at B pre blk0 (b1 :: suf1) Hpre eq_refl) end.
+          sstep H0. match goal with |- context [find_block _ (_ ++ ?B0 :: _)] => rewrite (find_block_at (bid blk0) pre B0 (b1 :: suf1) Hpre eq_refl) end. norm.
+          match goal with |- context [set_block ?B (_ ++ ?B0 :: _)] => rewrite (set_block_at B pre B0 (b1 :: suf1) Hpre eq_refl) end.
+          unfold push_slice. apply sr_done.
+        + cbn [map]. norm.
+          assert (Hnd' : NoDup (map bid ((pre ++ [blk0]) ++ b1 :: suf1))).
+          { rewrite <- app_assoc. exact Hnd. }
+          pose proof (IH (pre ++ [blk0]) b1 Hnd') as Hw.
+          rewrite <- !app_assoc in Hw. cbn [app] in Hw.
+          destruct (lf_first_fit (b1 :: suf1) s) as [(t' & r)|].
+          * rewrite <- app_assoc in Hw. exact Hw.
+          * exact Hw.
+    Qed.
+
+    (* LockfreeArena::store_str as run by a thread alone is the sequential [lf_store] *)
+    Lemma phase_store s cl pr outs a m strs key sh :
+      s <> [] -> NoDup (map bid (blocks a)) ->
+      solo_run tid (St c0 tid (mkThread (PStore s SHead) cl pr outs) a m strs key [(sh, tid)])
+        (after_store s cl pr outs m strs key sh (lf_store a s)).
+    Proof.
+      intros Hs Hnd. destruct a as [bs bc us lim nb]. cbn [blocks] in Hnd.
+      unfold lf_store, lf_store_gen. destruct s as [|x s']; [contradiction|].
+      remember (x :: s') as s eqn:Es. clear Es Hs. cbn [blocks bucket_cap usage limit next_bid].
+      sstep H0. destruct bs as [|b0 bs1]; cbn [map]; norm.
+      - cbn [lf_first_fit]. apply phase_grow.
+      - eapply solo_run_trans; [apply (phase_walk s cl pr outs bc us lim nb m strs key sh bs1 [] b0 Hnd)|].
+        cbn [app]. destruct (lf_first_fit (b0 :: bs1) s) as [(bs' & r)|]; cbn [after_store].
+        + apply sr_done.
+        + apply phase_grow.
+    Qed.
+
+    Lemma dispatch_St th a m strs key L th' :
+      with_threads (St c0 tid th a m strs key L) (set_thread (St c0 tid th a m strs key L) tid th') =
+      St c0 tid th' a m strs key L.
+    Proof. unfold with_threads, set_thread, St. cbn. now rewrite set_nth_twice. Qed.
+
+    (* the state a solo try_get_or_intern ends in *)
+    Definition intern_result (s : str) (pr : list call) (outs : list (call * cout))
+               (a : arena) (m strs : list entry) (key : N) : cstate :=
+      let th o := mkThread PIdle (CIntern s) pr ((CIntern s, o) :: outs) in
+      match mget a m s with
+      | Some k => St c0 tid (th (ROk k)) a m strs key []
+      | None =>
+          match lf_store a s with
+          | (a', Err e) => St c0 tid (th (RErr e)) a' m strs key []
+          | (a', Ok r) =>
+              if key <? keycap
+              then St c0 tid (th (ROk key)) a' (m ++ [mkEntry r s key])
+                      (strs_put (mkEntry r s key) strs) (key + 1) []
+              else St c0 tid (th (RErr KeySpaceExhaustion)) a' m strs (key + 1) []
+          end
+      end.
+
+    Lemma phase_call s pr cl0 outs a m strs key :
+      NoDup (map bid (blocks a)) ->
+      exists c1,
+        cstep (St c0 tid (mkThread PIdle cl0 (CIntern s :: pr) outs) a m strs key []) tid false = Some c1 /\
+        solo_run tid c1 (intern_result s pr outs a m strs key).
+    Proof.
+      intros Hnd. eexists. split.
+      - unfold Conc.step, step_gen. rewrite (nth_St _ _ _ _ _ _ _ _ _ H0), blocked_St_nil.
+        cbn [t_pc t_prog t_outs pc_of_call]. rewrite dispatch_St. reflexivity.
+      - unfold intern_result. sstep H0. destruct (mget a m s) as [k|] eqn:Eg.
+        + norm. cbn [filter]. apply sr_done.
+        + norm. sstep H0. sstep H0. rewrite Eg.
+          destruct s as [|x s'].
+          * norm. eapply solo_run_trans; [apply phase_key|].
+            unfold lf_store, lf_store_gen. apply sr_done.
+          * remember (x :: s') as s eqn:Es. norm.
+            assert (Hs : s <> []) by (subst s; discriminate).
+            eapply solo_run_trans; [apply (phase_store s _ _ _ a m strs key _ Hs Hnd)|].
+            destruct (lf_store a s) as (a' & [r|e]); cbn [after_store].
+            -- apply phase_key.
+            -- apply sr_done.
+    Qed.
+
+    (* ---- the other calls ---- *)
+
+    Definition sget (strs : list entry) (k : N) : option sref :=
+      match find (fun e => e_key e =? k) strs with Some e => Some (e_ref e) | None => None end.
+
+    Lemma strs_get_St th a m strs key L k : strs_get (St c0 tid th a m strs key L) k = sget strs k.
+    Proof. reflexivity. Qed.
+
+    (* the state a solo call ends in *)
+    Definition call_result (cl : call) (pr : list call) (outs : list (call * cout))
+               (a : arena) (m strs : list entry) (key : N) : cstate :=
+      let th o := mkThread PIdle cl pr ((cl, o) :: outs) in
+      match cl with
+      | CIntern s => intern_result s pr outs a m strs key
+      | CInternStatic addr s =>
+          match mget a m s with
+          | Some k => St c0 tid (th (ROk k)) a m strs key []
+          | None =>
+              if key <? keycap
+              then St c0 tid (th (ROk key)) a (m ++ [mkEntry (RStatic addr s) s key])
+                      (strs_put (mkEntry (RStatic addr s) s key) strs) (key + 1) []
+              else St c0 tid (th (RErr KeySpaceExhaustion)) a m strs (key + 1) []
+          end
+      | CGet s => St c0 tid (th (match mget a m s with Some k => ROk k | None => RNone end)) a m strs key []
+      | CResolve k =>
+          St c0 tid (th (match sget strs k with
+                         | Some r => match read a r with Some s => RStr s | None => RNone end
+                         | None => RNone
+                         end)) a m strs key []
+      | CSetLimit x => St c0 tid (th RUnit) (set_limit a x) m strs key []
+      | CUsage => St c0 tid (th (RNum (usage a))) a m strs key []
+      end.
+
+    Lemma phase_any_call cl pr cl0 outs a m strs key :
+      NoDup (map bid (blocks a)) ->
+      exists c1,
+        cstep (St c0 tid (mkThread PIdle cl0 (cl :: pr) outs) a m strs key []) tid false = Some c1 /\
+        solo_run tid c1 (call_result cl pr outs a m strs key).
+    Proof.
+      intros Hnd. destruct cl as [s|addr s|s|k|x|]; [now apply phase_call| | | | |];
+        (eexists; split;
+         [ unfold Conc.step, step_gen; rewrite (nth_St _ _ _ _ _ _ _ _ _ H0), blocked_St_nil;
+           cbn [t_pc t_prog t_outs pc_of_call]; rewrite dispatch_St; reflexivity |]);
+        unfold call_result.
+      - (* try_get_or_intern_static *)
+        sstep H0. destruct (mget a m s) as [k|] eqn:Eg.
+        + norm. cbn [filter]. apply sr_done.
+        + norm. sstep H0. rewrite Eg. norm. sstep H0. unfold Conc.try_key.
+          destruct (key <? keycap).
+          * norm. sstep H0. sstep H0. rewrite unl_own. apply sr_done.
+          * norm. rewrite unl_own. apply sr_done.
+      - (* get *)
+        sstep H0. cbn [filter]. apply sr_done.
+      - (* try_resolve *)
+        sstep H0. rewrite strs_get_St, as_arena_St. cbn [filter]. apply sr_done.
+      - (* set_memory_limits *)
+        sstep H0. cbn [filter]. apply sr_done.
+      - (* current_memory_usage *)
+        sstep H0. cbn [filter]. apply sr_done.
+    Qed.
+  End Phases.
+
+  Definition cout_of_res (R : res N) : cout :=
+    match R with Ok k => ROk k | Err e => RErr e end.
+
+  Lemma strs_put_insert r s k l :
+    map (fun e => (e_key e, e_ref e)) (strs_put (mkEntry r s k) l) =
+    strs_insert k r (map (fun e => (e_key e, e_ref e)) l).
+  Proof.
+    unfold strs_put, strs_insert. rewrite map_app. cbn [map e_key e_ref]. f_equal.
+    induction l as [|x l IH]; cbn [filter map]; auto. cbn [fst].
+    destruct (e_key x =? k); cbn [negb map]; now rewrite IH.
+  Qed.
+
+  (* the end state of the solo run is the sequential model's result, field for field *)
+  Lemma intern_result_spec c tid s pr outs :
+    let c' := intern_result c tid s pr outs (as_arena c) (c_map c) (c_strs c) (c_key c) in
+    let TR := t_intern keycap (trodeo_of c) s in
+    trodeo_of c' = fst TR /\
+    c_threads c' = set_nth tid (mkThread PIdle (CIntern s) pr
+                                         ((CIntern s, cout_of_res (snd TR)) :: outs)) (c_threads c) /\
+    c_locks c' = [] /\
+    ((c_map c' = c_map c /\ c_strs c' = c_strs c) \/
+     (exists r k, snd TR = Ok k /\ c_map c' = c_map c ++ [mkEntry r s k] /\
+                  c_strs c' = strs_put (mkEntry r s k) (c_strs c))).
+  Proof.
+    cbn zeta. unfold intern_result, Rodeo.t_intern.
+    rewrite <- (map_get_t_get c s).
+    change (map_get c s) with (mget (as_arena c) (c_map c) s).
+    destruct (mget (as_arena c) (c_map c) s) as [k|].
+    - rewrite trodeo_of_St. cbn [fst snd cout_of_res]. repeat split; auto.
+    - change (tar (trodeo_of c)) with (as_arena c).
+      destruct (lf_store (as_arena c) s) as (a' & [r|e]).
+      + change (tkey (trodeo_of c)) with (c_key c). unfold Rodeo.try_key.
+        destruct (c_key c <? keycap).
+        * rewrite trodeo_of_St. cbn [fst snd cout_of_res].
+          split; [|split; [reflexivity|split; [reflexivity|]]].
+          -- unfold trodeo_of. cbn [tmap tstrs tkey tar]. rewrite map_app, strs_put_insert. reflexivity.
+          -- right. exists r, (c_key c). auto.
+        * rewrite trodeo_of_St. cbn [fst snd cout_of_res]. repeat split; auto.
+      + rewrite trodeo_of_St. cbn [fst snd cout_of_res]. repeat split; auto.
+  Qed.
+
+  (* B: a thread that runs try_get_or_intern alone from a quiescent state computes exactly the
+     sequential model's [t_intern]: same answer, same maps, same counter, same arena (block
+     identities included), and the state is quiescent again with no lock held *)
+  Theorem solo_intern c tid t s rest :
+    NoDup (map bid (c_blocks c)) -> c_locks c = [] -> quiescent c ->
+    nth_error (c_threads c) tid = Some t -> t_prog t = CIntern s :: rest ->
+    exists n, forall fuel, (n <= fuel)%nat ->
+      let c' := run_solo c tid fuel in
+      let TR := t_intern keycap (trodeo_of c) s in
+      quiescent c' /\
+      trodeo_of c' = fst TR /\
+      c_threads c' = set_nth tid (mkThread PIdle (CIntern s) rest
+                                           ((CIntern s, cout_of_res (snd TR)) :: t_outs t)) (c_threads c) /\
+      c_locks c' = [] /\
+      ((c_map c' = c_map c /\ c_strs c' = c_strs c) \/
+       (exists r k, snd TR = Ok k /\ c_map c' = c_map c ++ [mkEntry r s k] /\
+                    c_strs c' = strs_put (mkEntry r s k) (c_strs c))).
+  Proof.
+    intros Hnd Hl Hq Hn Hp.
+    assert (Hpc : t_pc t = PIdle).
+    { unfold quiescent in Hq. rewrite Forall_forall in Hq. apply Hq. eapply nth_error_In; eauto. }
+    pose proof (St_init c tid t Hn) as Hc. rewrite Hl in Hc.
+    assert (Ht : t = mkThread PIdle (t_call t) (CIntern s :: rest) (t_outs t)).
+    { destruct t; cbn in *; subst; reflexivity. }
+    rewrite Ht in Hc.
+    destruct (phase_call c tid t Hn s rest (t_call t) (t_outs t) (as_arena c) (c_map c) (c_strs c)
+                         (c_key c) Hnd) as (c1 & Hstep & Hrun).
+    rewrite <- Hc in Hstep.
+    destruct (intern_result_spec c tid s rest (t_outs t)) as (R1 & R2 & R3 & R4).
+    set (cf := intern_result c tid s rest (t_outs t) (as_arena c) (c_map c) (c_strs c) (c_key c)) in *.
+    assert (Hidle : exists u, nth_error (c_threads cf) tid = Some u /\ t_pc u = PIdle).
+    { rewrite R2. eexists. split; [eapply ConcInternProofs.nth_error_set_nth_eq; eauto|reflexivity]. }
+    destruct (solo_run_loop tid c1 cf Hrun Hidle) as (n & Hloop).
+    exists n. intros fuel Hf. cbn zeta. unfold run_solo. rewrite Hstep, (Hloop fuel Hf).
+    split; [|auto].
+    unfold quiescent. rewrite R2. apply Forall_set_nth; [exact Hq|reflexivity].
+  Qed.
+
+  (* the same, from the two invariants *)
+  Corollary solo_intern_inv c tid t s rest :
+    AInv c -> JInv shard_of keycap c -> quiescent c ->
+    nth_error (c_threads c) tid = Some t -> t_prog t = CIntern s :: rest ->
+    exists n, forall fuel, (n <= fuel)%nat ->
+      let c' := run_solo c tid fuel in
+      let TR := t_intern keycap (trodeo_of c) s in
+      quiescent c' /\
+      trodeo_of c' = fst TR /\
+      c_threads c' = set_nth tid (mkThread PIdle (CIntern s) rest
+                                           ((CIntern s, cout_of_res (snd TR)) :: t_outs t)) (c_threads c) /\
+      c_locks c' = [] /\
+      ((c_map c' = c_map c /\ c_strs c' = c_strs c) \/
+       (exists r k, snd TR = Ok k /\ c_map c' = c_map c ++ [mkEntry r s k] /\
+                    c_strs c' = strs_put (mkEntry r s k) (c_strs c))).
+  Proof.
+    intros HA HJ Hq. apply solo_intern; auto.
+    - pose proof (ai_nodup _ HA) as Hnd. unfold all_blocks in Hnd. rewrite map_app in Hnd.
+      eapply ConcArenaProofs.NoDup_app_l; eauto.
+    - destruct (c_locks c) as [|(sh & h) L] eqn:El; auto. exfalso.
+      destruct (ji_locks_held _ _ _ HJ sh h) as (u & s0 & Hu & Hh & _); [rewrite El; now left|].
+      unfold quiescent in Hq. rewrite Forall_forall in Hq.
+      pose proof (Hq u (nth_error_In _ _ Hu)) as Hpc. unfold holds in Hh. rewrite Hpc in Hh.
+      discriminate.
+  Qed.
+
+  (* ---- every call ---- *)
+
+  (* the sequential model's transition for each call of the concurrent model's vocabulary
+     (the ThreadedRodeo cases of [Rodeo.step]: Intern, InternStatic, Get, TryResolve, SetLimit,
+     CurMem) *)
+  Definition seq_call (t : trodeo) (cl : call) : trodeo * cout :=
+    match cl with
+    | CIntern s => let (t', R) := t_intern keycap t s in (t', cout_of_res R)
+    | CInternStatic addr s => let (t', R) := t_intern_static keycap t addr s in (t', cout_of_res R)
+    | CGet s => (t, match t_get t s with Some k => ROk k | None => RNone end)
+    | CResolve k => (t, match t_resolve t k with Some s => RStr s | None => RNone end)
+    | CSetLimit x => (t_set_limit t x, RUnit)
+    | CUsage => (t, RNum (usage (tar t)))
+    end.
+
+  Lemma sget_t_ref c k : sget (c_strs c) k = t_ref (trodeo_of c) k.
+  Proof.
+    unfold sget, t_ref, trodeo_of. cbn [tstrs]. rewrite find_map. cbn [fst snd].
+    destruct (find _ (c_strs c)); reflexivity.
+  Qed.
+
+  Definition call_str (cl : call) : option str :=
+    match cl with CIntern s | CInternStatic _ s => Some s | _ => None end.
+
+  Lemma call_result_spec c tid cl pr outs :
+    let c' := call_result c tid cl pr outs (as_arena c) (c_map c) (c_strs c) (c_key c) in
+    let TR := seq_call (trodeo_of c) cl in
+    trodeo_of c' = fst TR /\
+    c_threads c' = set_nth tid (mkThread PIdle cl pr ((cl, snd TR) :: outs)) (c_threads c) /\
+    c_locks c' = [] /\
+    ((c_map c' = c_map c /\ c_strs c' = c_strs c) \/
+     (exists r s k, call_str cl = Some s /\ snd TR = ROk k /\ c_map c' = c_map c ++ [mkEntry r s k] /\
+                    c_strs c' = strs_put (mkEntry r s k) (c_strs c))).
+  Proof.
+    cbn zeta. destruct cl as [s|addr s|s|k|x|]; unfold call_result, seq_call.
+    - destruct (intern_result_spec c tid s pr outs) as (R1 & R2 & R3 & R4).
+      destruct (t_intern keycap (trodeo_of c) s) as (t' & R) eqn:Et. cbn [fst snd] in *.
+      split; [exact R1|]. split; [exact R2|]. split; [exact R3|].
+      destruct R4 as [R4|(r & k & -> & R5 & R6)]; [left; exact R4|].
+      right. exists r, s, k. cbn [call_str cout_of_res]. auto.
+    - unfold Rodeo.t_intern_static. rewrite <- (map_get_t_get c s).
+      change (map_get c s) with (mget (as_arena c) (c_map c) s).
+      destruct (mget (as_arena c) (c_map c) s) as [k|].
+      + rewrite trodeo_of_St. cbn [fst snd cout_of_res]. repeat split; auto.
+      + change (tkey (trodeo_of c)) with (c_key c). unfold Rodeo.try_key.
+        destruct (c_key c <? keycap).
+        * rewrite trodeo_of_St. cbn [fst snd cout_of_res].
+          split; [|split; [reflexivity|split; [reflexivity|]]].
+          -- unfold trodeo_of. cbn [tmap tstrs tkey tar]. rewrite map_app, strs_put_insert. reflexivity.
+          -- right. exists (RStatic addr s), s, (c_key c). auto.
+        * rewrite trodeo_of_St. cbn [fst snd cout_of_res]. repeat split; auto.
+    - rewrite trodeo_of_St. cbn [fst snd]. rewrite <- (map_get_t_get c s).
+      change (map_get c s) with (mget (as_arena c) (c_map c) s). repeat split; auto.
+    - rewrite trodeo_of_St. cbn [fst snd]. unfold t_resolve. rewrite <- (sget_t_ref c k).
+      change (tar (trodeo_of c)) with (as_arena c).
+      split; [reflexivity|]. split; [|split; [reflexivity|left; auto]].
+      destruct (sget (c_strs c) k) as [r|]; [|reflexivity].
+      destruct (read (as_arena c) r); reflexivity.
+    - rewrite trodeo_of_St. cbn [fst snd]. repeat split; auto.
+    - rewrite trodeo_of_St. cbn [fst snd]. repeat split; auto.
+  Qed.
+
+  (* B, for every call of the vocabulary: a thread that runs its next call alone from a
+     quiescent state performs exactly [seq_call] on [trodeo_of] *)
+  Theorem solo_call c tid t cl rest :
+    NoDup (map bid (c_blocks c)) -> c_locks c = [] -> quiescent c ->
+    nth_error (c_threads c) tid = Some t -> t_prog t = cl :: rest ->
+    exists n, forall fuel, (n <= fuel)%nat ->
+      let c' := run_solo c tid fuel in
+      let TR := seq_call (trodeo_of c) cl in
+      quiescent c' /\
+      trodeo_of c' = fst TR /\
+      c_threads c' = set_nth tid (mkThread PIdle cl rest ((cl, snd TR) :: t_outs t)) (c_threads c) /\
+      c_locks c' = [] /\
+      ((c_map c' = c_map c /\ c_strs c' = c_strs c) \/
+       (exists r s k, call_str cl = Some s /\ snd TR = ROk k /\ c_map c' = c_map c ++ [mkEntry r s k] /\
+                      c_strs c' = strs_put (mkEntry r s k) (c_strs c))).
+  Proof.
+    intros Hnd Hl Hq Hn Hp.
+    assert (Hpc : t_pc t = PIdle).
+    { unfold quiescent in Hq. rewrite Forall_forall in Hq. apply Hq. eapply nth_error_In; eauto. }
+    pose proof (St_init c tid t Hn) as Hc. rewrite Hl in Hc.
+    assert (Ht : t = mkThread PIdle (t_call t) (cl :: rest) (t_outs t)).
+    { destruct t; cbn in *; subst; reflexivity. }
+    rewrite Ht in Hc.
+    destruct (phase_any_call c tid t Hn cl rest (t_call t) (t_outs t) (as_arena c) (c_map c) (c_strs c)
+                             (c_key c) Hnd) as (c1 & Hstep & Hrun).
+    rewrite <- Hc in Hstep.
+    destruct (call_result_spec c tid cl rest (t_outs t)) as (R1 & R2 & R3 & R4).
+    set (cf := call_result c tid cl rest (t_outs t) (as_arena c) (c_map c) (c_strs c) (c_key c)) in *.
+    assert (Hidle : exists u, nth_error (c_threads cf) tid = Some u /\ t_pc u = PIdle).
+    { rewrite R2. eexists. split; [eapply ConcInternProofs.nth_error_set_nth_eq; eauto|reflexivity]. }
+    destruct (solo_run_loop tid c1 cf Hrun Hidle) as (n & Hloop).
+    exists n. intros fuel Hf. cbn zeta. unfold run_solo. rewrite Hstep, (Hloop fuel Hf).
+    split; [|auto].
+    unfold quiescent. rewrite R2. apply Forall_set_nth; [exact Hq|reflexivity].
+  Qed.
+
+  Lemma quiescent_side_conditions c :
+    AInv c -> JInv shard_of keycap c -> quiescent c ->
+    NoDup (map bid (c_blocks c)) /\ c_locks c = [].
+  Proof.
+    intros HA HJ Hq. split.
+    - pose proof (ai_nodup _ HA) as Hnd. unfold all_blocks in Hnd. rewrite map_app in Hnd.
+      eapply ConcArenaProofs.NoDup_app_l; eauto.
+    - destruct (c_locks c) as [|(sh & h) L] eqn:El; auto. exfalso.
+      destruct (ji_locks_held _ _ _ HJ sh h) as (u & s0 & Hu & Hh & _); [rewrite El; now left|].
+      unfold quiescent in Hq. rewrite Forall_forall in Hq.
+      pose proof (Hq u (nth_error_In _ _ Hu)) as Hpc. unfold holds in Hh. rewrite Hpc in Hh.
+      discriminate.
+  Qed.
+
+  (* a solo run is a run of the model: what it reaches is reachable *)
+  Lemma solo_loop_reachable c0 tid fuel : forall c,
+    reachable shard_of keycap c0 c -> reachable shard_of keycap c0 (solo_loop c tid fuel).
+  Proof.
+    induction fuel as [|f IH]; intros c Hr; cbn [solo_loop]; auto.
+    destruct (nth_error (c_threads c) tid) as [t|]; auto.
+    destruct (cstep c tid false) as [c'|] eqn:Es; [|destruct (t_pc t); auto].
+    assert (Hr' : reachable shard_of keycap c0 (solo_loop c' tid f)).
+    { apply IH. eapply reach_step; eauto. }
+    destruct (t_pc t); auto.
+  Qed.
+
+  Theorem run_solo_reachable c0 c tid fuel :
+    reachable shard_of keycap c0 c -> reachable shard_of keycap c0 (run_solo c tid fuel).
+  Proof.
+    intros Hr. unfold run_solo. destruct (cstep c tid false) as [c'|] eqn:Es; auto.
+    apply solo_loop_reachable. eapply reach_step; eauto.
+  Qed.
+
+  (* A and B together: from a quiescent state reachable from [init], a solo call is the
+     sequential call, and the state it ends in is again a well-formed ThreadedRodeo *)
+  Theorem solo_call_from_init cap lim progs c tid t cl rest :
+    0 < cap -> reachable shard_of keycap (init cap lim progs) c -> quiescent c ->
+    nth_error (c_threads c) tid = Some t -> t_prog t = cl :: rest ->
+    exists n, forall fuel, (n <= fuel)%nat ->
+      let c' := run_solo c tid fuel in
+      let TR := seq_call (trodeo_of c) cl in
+      reachable shard_of keycap (init cap lim progs) c' /\ quiescent c' /\
+      trodeo_of c' = fst TR /\
+      (exists u, nth_error (c_threads c') tid = Some u /\ t_pc u = PIdle /\ t_prog u = rest /\
+                 t_outs u = (cl, snd TR) :: t_outs t) /\
+      (exists cs cs', TInv keycap (trodeo_of c) cs /\ TInv keycap (fst TR) cs').
+  Proof.
+    intros Hcap Hr Hq Hn Hp.
+    destruct (reachable_invariants shard_of keycap cap lim progs Hcap c Hr) as (HA & (HJ & HX) & _).
+    destruct (quiescent_side_conditions c HA HJ Hq) as (Hnd & Hl).
+    destruct (solo_call c tid t cl rest Hnd Hl Hq Hn Hp) as (n & Hsolo).
+    exists n. intros fuel Hf. cbn zeta.
+    destruct (Hsolo fuel Hf) as (Q1 & Q2 & Q3 & Q4 & _).
+    assert (Hr' : reachable shard_of keycap (init cap lim progs) (run_solo c tid fuel))
+      by now apply run_solo_reachable.
+    split; [exact Hr'|]. split; [exact Q1|]. split; [exact Q2|]. split.
+    - rewrite Q3. eexists. split; [eapply ConcInternProofs.nth_error_set_nth_eq; eauto|].
+      cbn [t_pc t_prog t_outs]. auto.
+    - destruct (quiescent_is_TInv shard_of keycap cap lim progs Hcap c Hr Hq) as (cs & HT & _).
+      destruct (quiescent_is_TInv shard_of keycap cap lim progs Hcap _ Hr' Q1) as (cs' & HT' & _).
+      rewrite Q2 in HT'. eauto.
+  Qed.
+End Solo.
+
+Print Assumptions quiescent_TInv.
+Print Assumptions quiescent_is_TInv.
+Print Assumptions quiescent_into_reader.
+Print Assumptions quiescent_strings.
+Print Assumptions quiescent_obj_inv.
+Print Assumptions t_pairs_enumerate.
+Print Assumptions step_iter_threaded.
+Print Assumptions step_ser_threaded.
+Print Assumptions C14_roundtrip_threaded.
+Print Assumptions step_extend_is_intern_loop.
+Print Assumptions step_from_iter_is_extend.
+Print Assumptions solo_intern.
+Print Assumptions solo_intern_inv.
+Print Assumptions solo_call.
+Print Assumptions run_solo_reachable.
+Print Assumptions solo_call_from_init.
